@@ -12,8 +12,11 @@ RULE = ("{offset: line} mappings with strictly increasing offsets from 0 (gaps 2
 
 # version -> (encoder op of the Model, signed decoding era, oracle version or None)
 TYPES = [((2, 4), "x.enc15", False, None), ((2, 7), "x.enc15", False, (2, 7)), ((3, 3), "x.enc3", False, None),
-         ((3, 7), "x.enc3", True, (3, 7)), ((3, 8), "x.enc3", True, (3, 8)), ((3, 9), "x.enc3", True, (3, 9)),
+         ((3, 7), "x.enc3", True, (3, 7)), ((3, 8), "x.enc36", True, (3, 8)), ((3, 9), "x.enc36", True, (3, 9)),
          ((3, 10), "x.enc310", True, (3, 10))]
+# Code3 serves 3.0-3.7 and carries no version: it writes the unsigned table of 3.0-3.5 also for 3.6/3.7
+# (recorded findings); Code38 (3.8, 3.9) and Code310 write their own formats, for every line gap
+FULL_DOMAIN = ((3, 8), (3, 9), (3, 10))
 
 
 def dedup(m):
@@ -30,11 +33,9 @@ def fmt(st):
 
 def known_key(v, first, m):
     deltas = [m[0][1] - first] + [b[1] - a[1] for a, b in zip(m, m[1:])]
-    if v == (3, 10):
-        return "code310-encoder-attaches-line-to-previous-range"
-    if v >= (3, 6) and any(d < 0 for d in deltas):
+    if v in ((3, 6), (3, 7)) and any(d < 0 for d in deltas):
         return "code3-negative-line-delta-dropped"
-    if v >= (3, 6) and any(d >= 128 for d in deltas):
+    if v in ((3, 6), (3, 7)) and any(d >= 128 for d in deltas):
         return "code3-line-delta-ge128-in-signed-format"
     return None
 
@@ -50,7 +51,10 @@ def run(ctx):
             cases = []
             # main stream: inside the domain where the encoder is claimed to work
             for _ in range(N):
-                first, m = gen_lines.mapping(rng, nondecreasing=True, small=signed)
+                if v in FULL_DOMAIN:
+                    first, m = gen_lines.mapping(rng, nondecreasing=False)
+                else:
+                    first, m = gen_lines.mapping(rng, nondecreasing=True, small=signed)
                 cases.append((first, m, False))
             # stream aimed at the recorded findings (and at whatever else breaks there)
             for _ in range(max(6, N // 5)):
@@ -59,7 +63,14 @@ def run(ctx):
             cases.append((1, [(0, 1), (6, 2), (300, 5)], False))
             cases.append((1, [(0, 1), (256, 2), (260, 3)], False))
             cases.append((5, [(0, 5), (128, 6), (131, 7)], False))
-            outs = drv.ask(["%s %d %s" % (encop, first, ",".join("%d:%d" % p for p in m)) for first, m, _ in cases])
+            if v in FULL_DOMAIN:
+                cases.append((1000, [(0, 1000), (4, 1080), (6, 1500), (700, 20), (702, 20)], True))
+                cases.append((10, [(0, 10), (510, 1010), (520, 1200), (1520, 40), (1522, 39)], True))
+            if encop == "x.enc310":
+                # the last range ends with the code: len(co_code) of the object the worker builds
+                outs = drv.ask(["%s %d %d %s" % (encop, first, 2 * ((m[-1][0] + 2) // 2), ",".join("%d:%d" % p for p in m)) for first, m, _ in cases])
+            else:
+                outs = drv.ask(["%s %d %s" % (encop, first, ",".join("%d:%d" % p for p in m)) for first, m, _ in cases])
             for (first, m, aimed), mo in zip(cases, outs):
                 clen = m[-1][0] + 2
                 # one case in three is supplied to an object that has been through freeze() before
